@@ -29,7 +29,8 @@ ALL_PARAMS = ['factor_update_steps', 'inv_update_steps', 'damping',
 def ref_constants(cfg: kaisa.Config, alphabet: list[str], micro: list[int],
                   sched_args: list[int], depth: int,
                   strict: bool = False, save_args: tuple = (True, False),
-                  load_args: tuple = (True, False)) -> str:
+                  load_args: tuple = (True, False),
+                  int_tables: dict[str, list[int]] | None = None) -> str:
     def ispec(v: Any) -> str:
         if isinstance(v, str):
             return f'[kind |-> "fn", v |-> 0, name |-> "{v}"]'
@@ -51,6 +52,7 @@ def ref_constants(cfg: kaisa.Config, alphabet: list[str], micro: list[int],
         f'Micro == {tla(set(micro))}\nSchedArgs == {tla(set(sched_args))}\n'
         f'MaxDepth == {depth}\nStrict == {tla(bool(strict))}\n'
         f'SaveArgs == {tla(set(save_args))}\nLoadArgs == {tla(set(load_args))}\n'
+        + ('IntTable == ' + (tla(int_tables) if int_tables else '<<>>') + '\n')
     )
 
 
